@@ -166,6 +166,7 @@ func runC01(c *engine.Ctx) {
 		}
 		// G5c: a header sent on several lines is one header with a list value
 		cases = append(cases, c01Case{kind: k, group: "header-repeated", path: "put-repeated", key: "h/k", keyName: "x-amz-meta-tags x2", size: 5, pattern: "mod251", integrity: "on", start: "absent"})
+		cases = append(cases, c01Case{kind: k, group: "header-repeated", path: "put-repeated-encoding", key: "h/k", keyName: "Content-Encoding x2", size: 5, pattern: "mod251", integrity: "on", start: "absent"})
 		// G5d: a browser-form upload without a key has nothing a GET could name
 		cases = append(cases, c01Case{kind: k, group: "form-empty-key", path: "form", key: "", keyName: "(empty)", size: 5, pattern: "mod251", integrity: "on", start: "absent"})
 		// G6: a copy that replaces metadata leaves the source's metadata alone
@@ -290,6 +291,29 @@ func c01Run(c *engine.Ctx, cs c01Case) (field, msg string) {
 			return "upload-status", "PUT answered " + r.Short()
 		}
 		upETag = r.Header.Get("ETag")
+	case "put-repeated-encoding":
+		r := w.Do(drv.Req{Method: "PUT", Path: "/aaa/" + cs.key, Body: body, Header: drv.H("Content-Encoding", "deflate", "Content-Encoding", "gzip")})
+		evals++
+		if r.Status != 200 || r.Panic != "" {
+			return "upload-status", "PUT answered " + r.Short()
+		}
+		upETag = r.Header.Get("ETag")
+		for _, head := range []bool{false, true} {
+			v := w.Get("aaa", cs.key)
+			if head {
+				v = w.Head("aaa", cs.key)
+			}
+			evals++
+			var vals []string
+			for _, line := range v.Hdr["Content-Encoding"] {
+				for _, e := range strings.Split(line, ",") {
+					vals = append(vals, strings.TrimSpace(e))
+				}
+			}
+			if strings.Join(vals, ",") != "deflate,gzip" {
+				return "meta-repeated-header", fmt.Sprintf("Content-Encoding sent as two lines (deflate, gzip) comes back as %q (head=%v)", v.Hdr["Content-Encoding"], head)
+			}
+		}
 	case "put-repeated":
 		r := w.Do(drv.Req{Method: "PUT", Path: "/aaa/" + cs.key, Body: body, Header: drv.H("x-amz-meta-tags", "one", "x-amz-meta-tags", "two")})
 		evals++
